@@ -12,7 +12,12 @@ import numpy as np
 from scipy.interpolate import interp1d
 from scipy.sparse import csc_matrix
 from typing import Union, Callable, Optional, TYPE_CHECKING, Tuple, Dict, Any, List
-from partitura.utils.generic import find_nearest, search, iter_current_next
+from partitura.utils.generic import (
+    find_nearest,
+    search,
+    iter_current_next,
+    deepcopy_linked,
+)
 from partitura.utils.globals import *
 import partitura
 from tempfile import TemporaryDirectory
@@ -291,13 +296,11 @@ def transpose(score: ScoreLike, interval: Interval) -> ScoreLike:
     import partitura.score as s
     import sys
 
-    # Copy needs to be deep, otherwise the recursion limit will be exceeded
-    old_recursion_depth = sys.getrecursionlimit()
-    sys.setrecursionlimit(10000)
-    # Deep copy of score
-    new_score = copy.deepcopy(score)
-    # Reset recursion limit to previous value to avoid side effects
-    sys.setrecursionlimit(old_recursion_depth)
+    # Deep copy of score (the depth of the copy grows with the timeline)
+    parts = score.parts if isinstance(score, s.Score) else [score]
+    new_score = deepcopy_linked(
+        score, sum(len(getattr(part, "_points", ())) for part in parts)
+    )
     if isinstance(score, s.Score):
         for part in new_score.parts:
             for note in part.notes:
